@@ -909,12 +909,12 @@ impl World {
         }
         let names = ["base_nonce", "exporter_secret"];
         for i in 0..2 {
-            if !scan.present_before[i] {
+            if !scan.observed(i) {
                 cov.hit(&format!("teardown.unobservable.{}", names[i]));
                 continue;
             }
             cov.hit(&format!("teardown.observed.{}", names[i]));
-            if scan.present_after[i] {
+            if scan.survived(i) {
                 return Err(self.viol(&format!("drop.{}-still-in-memory", names[i]), format!("{} no longer present in the {}-byte slot of the dropped {:?} context", names[i], scan.size, role), "still present after drop".into()));
             }
         }
